@@ -10,7 +10,8 @@ RULE = ("Cases: 1-4 recordings (16-400 samples, drawn recipes, nested metadata; 
         "it), any processing method incl. PSD with/without smoothing, FFT length given as None / explicit / {'n': None}, a "
         "history of 2-4 process() calls (same settings object, fresh settings object, or another configuration), followed by "
         "in-place edits of the recordings and of every settings object. Non-trivial = Tukey width > 0 with non-constant "
-        "samples and at least one repeated call on the same settings object; distinct by SHA-1 of the case.")
+        "samples and at least one repeated call on the same settings object; distinct by SHA-1 of the case."
+        " 'collide' calls replace one number of the configuration by a near-collision variant; the first call of each case and every call with another configuration is compared with a pristine copy of the library.")
 ASSUMPTIONS = [
     "bit-exact snapshots (sample arrays, time steps, orientation, metadata incl. nested values) taken by the harness",
     "a settings object is only re-used with the same list of recordings (process() records the FFT length it chose in the settings)",
